@@ -56,6 +56,7 @@ func (c *RTCall) Done() bool {
 func RTSettle(limit time.Duration, calls ...*RTCall) bool {
 	deadline := time.Now().Add(limit)
 	stable := 0
+	extended := false
 	for {
 		all := true
 		states := goroutineStates()
@@ -77,6 +78,12 @@ func RTSettle(limit time.Duration, calls ...*RTCall) bool {
 			stable = 0
 		}
 		if time.Now().After(deadline) {
+			// (a call that is merely waiting for the CPU on a busy machine is "runnable" for as long as it takes: one extension)
+			if !extended {
+				extended = true
+				deadline = time.Now().Add(2 * time.Minute)
+				continue
+			}
 			return false
 		}
 		time.Sleep(500 * time.Microsecond)
